@@ -15,7 +15,7 @@ pub use smartcore::math::num::RealNumber;
 #[macro_export]
 macro_rules! vp_assert {
     ($cond:expr, $tag:literal) => {
-        assert!($cond, concat!("VP:", $tag));
+        assert!($cond, concat!("VP:", $tag))
     };
 }
 
